@@ -1,3 +1,4 @@
-INIT DInit
+INIT TInit
 NEXT DNext
+POSTCONDITION TraceAccepted
 CHECK_DEADLOCK FALSE
